@@ -140,3 +140,92 @@ func clipS(s string, n int) string {
 	}
 	return s
 }
+
+// Refused-admin-change lane: an account's rights are what its stored record says. An admin request that is REFUSED
+// (create-user for an access key that exists, naming another role) must leave the account's rights as they were,
+// in the running process as well as after a restart.
+func refusedAdminLane(c *ev.Ctx, cacheCfg string) {
+	id := "a/refused-create/" + cacheCfg
+	if !c.Want(id) {
+		return
+	}
+	cfg := gw.Config{}
+	if cacheCfg == "cache-disabled" {
+		cfg.Env = []string{"VGW_IAM_CACHE_DISABLE=true"}
+	}
+	env, err := fx.New("c03a", cfg, 1)
+	if err != nil {
+		c.Inconclusive("gateway start (refused-admin lane): " + err.Error())
+		return
+	}
+	defer env.Close()
+	root := env.Client(0)
+	if r := env.CreateUser("mallory", "mallory-secret-1", "user", 0, 0); r.Status != 201 {
+		c.Inconclusive("create user: " + r.String())
+		return
+	}
+	mallory := root.With("mallory", "mallory-secret-1")
+	if r := root.CreateBucket("vault"); !r.OK() {
+		c.Inconclusive("create bucket: " + r.String())
+		return
+	}
+	root.PutObject("vault", "secret", []byte("top secret"))
+	type attempt struct {
+		name string
+		run  func() *s3c.Resp
+	}
+	attempts := []attempt{
+		{"get-object-of-another-account", func() *s3c.Resp { return mallory.GetObject("vault", "secret") }},
+		{"put-object-into-another-accounts-bucket", func() *s3c.Resp { return mallory.PutObject("vault", "intruder", []byte("x")) }},
+		{"list-another-accounts-bucket", func() *s3c.Resp {
+			return mallory.Do(&s3c.Req{Method: "GET", Path: "/vault", Query: "list-type=2"})
+		}},
+		{"create-bucket-as-role-user", func() *s3c.Resp { return mallory.CreateBucket("mallorys-bucket") }},
+		{"admin-list-users", func() *s3c.Resp { return mallory.Do(&s3c.Req{Method: "PATCH", Path: "/list-users"}) }},
+		{"admin-create-user", func() *s3c.Resp {
+			return mallory.Admin("/create-user", "", []byte(`<Account><Access>eve</Access><Secret>eve-secret-1</Secret><Role>admin</Role><UserID>0</UserID><GroupID>0</GroupID></Account>`))
+		}},
+	}
+	judge := func(when string) bool {
+		for _, a := range attempts {
+			r := a.run()
+			c.Eval(1)
+			if r.Err != nil {
+				c.Inconclusive("transport error in refused-admin lane")
+				return false
+			}
+			if r.Status < 300 {
+				c.Violation("refused-admin-change:"+a.name+":allowed:"+when+"["+cacheCfg+"]", id, map[string]any{"account": "mallory (role user)", "operation": a.name, "answer": r.String(), "when": when})
+			} else if when != "before" {
+				c.Distinct("refused-admin|" + a.name + "|" + when + "|" + cacheCfg)
+			}
+		}
+		return true
+	}
+	if !judge("before") {
+		return
+	}
+	for _, body := range []string{
+		`<Account><Access>mallory</Access><Secret>mallory-secret-1</Secret><Role>admin</Role><UserID>0</UserID><GroupID>0</GroupID></Account>`,
+		`<Account><Access>mallory</Access><Secret>other-secret-22</Secret><Role>userplus</Role><UserID>0</UserID><GroupID>0</GroupID></Account>`,
+	} {
+		r := root.Admin("/create-user", "", []byte(body))
+		c.Eval(1)
+		if r.Status < 300 {
+			c.Violation("refused-admin-change:create-user-on-existing-key-accepted["+cacheCfg+"]", id, map[string]any{"answer": r.String(), "body": body})
+		}
+		if !judge("after-refused-create-user") {
+			return
+		}
+	}
+	if r := mallory.Do(&s3c.Req{Method: "GET", Path: "/"}); r.Status != 200 {
+		c.Violation("refused-admin-change:account-lost-its-own-access["+cacheCfg+"]", id, map[string]any{"answer": r.String()})
+	}
+	if err := env.Restart(0); err != nil {
+		c.Inconclusive("restart: " + err.Error())
+		return
+	}
+	root = env.Client(0)
+	mallory = root.With("mallory", "mallory-secret-1")
+	judge("after-restart")
+}
